@@ -619,7 +619,7 @@ func (c c08Scan) build() (*wire.MsgBlock, []byte, int) {
 }
 
 func evalC08Scan(c c08Scan, o *Obs) error {
-	if c.N < 1 || c.N > 400 || c.Fan < 1 || c.Fan > 4 || c.Span < 1 {
+	if c.N < 1 || c.N > 600 || c.Fan < 1 || c.Fan > 4 || c.Span < 1 {
 		return hbug("bad scan case")
 	}
 	blk, item, size := c.build()
@@ -667,6 +667,9 @@ var kC08Scan = register(&Kind[c08Scan]{
 			Preset: rapid.SampledFrom([]int{0, 0, 1, 1, 2}).Draw(t, "preset")}
 		if rapid.IntRange(0, 9).Draw(t, "big") == 0 {
 			c.N = rapid.IntRange(100, 400).Draw(t, "nbig")
+			if rapid.Bool().Draw(t, "pow2") { // tree levels whose width is a power of two, or one off
+				c.N = rapid.SampledFrom([]int{127, 128, 129, 255, 256, 257, 383, 384, 385, 509, 510, 511, 512, 513}).Draw(t, "npow2")
+			}
 		}
 		if isKnown("scan-exponential") && c.Fan >= 2 && c.N > 14 {
 			c.N = 14 // excluded by construction while the finding is listed
@@ -1161,6 +1164,24 @@ func TestC08(t *testing.T) {
 		}
 		kC08Scan.Run(t, ev, perShard(pick(600, 30000)))
 		kC08Storm.Run(t, ev, perShard(pick(40, 1200)))
+		// queries of every size from 1 to 420 (this shard's quarter of them) against one honest filter of 1000 elements
+		{
+			var members [][]byte
+			for i := 0; i < 1000; i++ {
+				members = append(members, derivedItem(uint32(seedEnv)+21, i))
+			}
+			var key [16]byte
+			if hf, err := gcs.BuildGCSFilter(19, 784931, key, members); err == nil {
+				raw, _ := hf.Bytes()
+				var q []HexBytes
+				for n := 1; n <= 420; n++ {
+					q = append(q, derivedItem(uint32(seedEnv)+22, n))
+					if n%nShards == shard {
+						kC08GCS.One(ev, c08GCS{N: hf.N(), P: 19, M: 784931, Data: raw, Query: append([]HexBytes{}, q...)})
+					}
+				}
+			}
+		}
 		ev.requireClasses("C08:str-origin=short-cashaddr", "C08:str-passed-outer-layer", "C08:wire-parsed",
 			"C08:filterload-empty-filter-with-hash-funcs", "C08:filterload-via-wire", "C08:merkle-via-wire",
 			"C08:gcs-declared-count-far-above-data", "C08:json-valid", "C08:json-unmarshalled", "C08:scan-deep-spend-graph", "C08:filterload-storm")
